@@ -135,6 +135,8 @@ impl TaskManager {
 					// stall on it for good.
 					if !flush_failed && core.has_pending_immutables() {
 						notify.notify_one();
+						#[cfg(surrealkv_verif)]
+						crate::verif::yieldp::yield_point("task.mem.recheck", 0, 1);
 					}
 				}
 				#[cfg(surrealkv_verif)]
